@@ -176,5 +176,5 @@ def run(run, P, only=None):
         run.oblige('R-USE-AFTER-DESTROY', True, '%s:analysed' % name)
     run.instance('R-USE-AFTER-DESTROY', 'destructor call sites on plain locals: %d' % n, n=1 if n else 0)
     run.stats['uaf_destructors'] = len([1 for x in D if P.has(x[0])])
-    run.require(n >= 50 or run.fixture_mode, 'R-USE-AFTER-DESTROY: only %d destructor calls on plain locals found' % n)
+    run.require_count(n >= 50 or run.fixture_mode, 'R-USE-AFTER-DESTROY: only %d destructor calls on plain locals found' % n)
     return D
